@@ -125,6 +125,10 @@ func (s *Server) handleRequest(ctx context.Context, stream network.Stream) (_err
 		}
 
 		certs, err := s.Store.GetRange(ctx, req.FirstInstance, end)
+		// GetRange is inclusive on both ends: never serve more than the requested limit.
+		if uint64(len(certs)) > limit {
+			certs = certs[:limit]
+		}
 		if err == nil || errors.Is(err, certstore.ErrCertNotFound) {
 			for i := range certs {
 				if err := certs[i].MarshalCBOR(bw); err != nil {
